@@ -1,15 +1,14 @@
-SPECIFICATION GSpec
-INVARIANT Emit
+SPECIFICATION MCSpec
 INVARIANT ObjectsAreFunctionsOfInput
 INVARIANT GlobalsUntouched
 INVARIANT ResultsDependOnInputOnly
 INVARIANT AccessorResultsAreFunctionsOfTheObject
+PROPERTY AccessorsArePure
 CONSTANTS
-  Threads = {t1}
-  Inputs = {}
-  MaxObjs = 1
-  MaxCalls = 3
-  Mode = "accessors"
+  Threads = {t1, t2}
+  Inputs <- InputsDef
+  MaxObjs = 2
+  MaxCalls = 4
   BugSharedScratch = FALSE
   BugCache = FALSE
   BugAccessorMutates = FALSE
@@ -17,5 +16,5 @@ CONSTANTS
   BugEntryPointWritesTables = FALSE
   BugCopyDiffers = FALSE
   BugMemoPublishedEarly = FALSE
-  BugCacheIgnoresContext = FALSE
+  BugCacheIgnoresContext = TRUE
 CHECK_DEADLOCK FALSE
